@@ -8,14 +8,19 @@ import gen, gen_c17
 
 TTLS = gen_c17.TTLS
 
-# Findings proposed for known_findings.json (used until the entries are in the file). Each witness is replayed on the
-# real code in every run; the KNOWN-FINDING line is printed only when it still fails.
-PROPOSED = [
+# The slice describes the tree in which three former defects of the cache are repaired (patches corpus/C17-fix-*.patch):
+#   C17-pending-bool          Pending is a holder count now; every Open is followed by a Release
+#   C17-clear-erases-marker   ClearLocation keeps the createdAt marker
+#   C17-unchecked-open-bypass a checked request served from the cache looks at the marker again
+# (and C17-open-window, repaired earlier).  Their witnesses (FORMER) run in every run as ordinary cases and must behave.
+# An id that is still listed under `findings` in known_findings.json (and not under `fixed`) is tolerated: generated
+# cases that fall into its class are counted, not reported; any other failure of the property still is.
+FORMER = [
     {"property": "C17", "id": "C17-open-window", "class": "open-window",
-     "what": "CachedLocations.Open unlocks the table (system.go:157) before CachedLocation.Get locks the entry (229): a second first request arriving in between installs a second entry => two loads, two instances, an acknowledged write invisible to later requests",
+     "what": "two concurrent first requests for one location could install and load two instances",
      "witness": {"kind": "c17.window", "ttl": "forever", "state": "indexed", "check": False}},
     {"property": "C17", "id": "C17-pending-bool", "class": "pending-bool",
-     "what": "CachedLocation.Pending is a bool, not a count: a Release by one holder clears it and (TTL expired) drops the entry while another request still uses the instance; the next request loads a second instance and later requests miss the first holder's acknowledged write",
+     "what": "a Release by one holder dropped the (expired) entry while another request still used the instance; the next request loaded a second instance and later requests missed the first holder's acknowledged write",
      "witness": {"kind": "c17.proto", "ttl": 40000000, "state": "indexed", "check": False, "steps": [
          {"t": "open", "h": "A", "loc": "y", "check": False}, {"t": "open", "h": "B", "loc": "y", "check": False},
          {"t": "sleep", "ms": 70, "loc": "y"}, {"t": "release", "h": "A", "loc": "y"},
@@ -23,11 +28,11 @@ PROPOSED = [
          {"t": "op", "h": "B", "op": {"op": "addFact", "id": "w", "fact": {"a": 7}}}, {"t": "release", "h": "B", "loc": "y"},
          {"t": "req", "loc": "y", "op": {"op": "search", "pattern": {"a": "?v"}, "inherited": False}}]}},
     {"property": "C17", "id": "C17-clear-erases-marker", "class": "marker-erased",
-     "what": "with CheckExistence on, ClearLocation (or RemFact of '!.createdAt') erases the createdAt marker but a cached entry is never re-checked: later requests succeed while the entry is cached and fail with NotFound once it is reloaded => results depend on the TTL",
+     "what": "with CheckExistence on, ClearLocation (or RemFact of '!.createdAt') erased the createdAt marker but a cached entry was never looked at again: later requests succeeded while the entry was cached and failed with NotFound once it was reloaded",
      "witness": {"kind": "c17.sys", "check": True, "state": "indexed", "ops": [
          {"op": "create", "loc": "x"}, {"op": "clear", "loc": "x"}, {"op": "addFact", "loc": "x", "id": "f1", "fact": {"a": 1}}]}},
     {"property": "C17", "id": "C17-unchecked-open-bypass", "class": "unchecked-open",
-     "what": "with CheckExistence on, an unchecked open that is never released (System.GetLocation, used to resolve parents) caches a never-created location; a following checked request is served from the cache, succeeds and writes to the never-created location (forever: always, never: once)",
+     "what": "with CheckExistence on, an unchecked open (System.GetLocation, used to resolve parents) cached a never-created location; a following checked request was served from the cache, succeeded and wrote to the never-created location",
      "witness": {"kind": "c17.sys", "check": True, "state": "indexed", "ops": [
          {"op": "create", "loc": "c"}, {"op": "setParents", "loc": "c", "parents": ["p"]},
          {"op": "addFact", "loc": "p", "id": "f1", "fact": {"a": 1}},
@@ -37,20 +42,54 @@ PROPOSED = [
 ]
 
 
+def tolerated_classes(prop):
+    """classes of the findings still listed (not repaired): id under `findings` and not under `fixed`"""
+    fixed = fixed_finding_ids(prop)
+    return {f.get("class") for f in known_findings(prop) if f.get("id") not in fixed and f.get("class")}
 
-def effective_findings(prop, proposed):
-    """entries of known_findings.json for the property; until some are listed, the PROPOSED ones minus those whose id
-    appears among the file's `fixed` entries (a repaired defect must not be expected to fail)"""
-    listed = known_findings(prop)
-    if listed:
-        return listed
-    fixed = set()
-    p = os.path.join(VERIF, "known_findings.json")
-    if os.path.exists(p):
-        for f in json.load(open(p)).get("fixed", []):
-            if f.get("property") == prop and f.get("id"):
-                fixed.add(f["id"])
-    return [f for f in proposed if f["id"] not in fixed]
+
+def erases_marker(op):
+    return op.get("op") == "clear" or (op.get("op") in ("remFact", "remRule") and op.get("id") in ("", gen_c17.MARKER_ID))
+
+
+def sys_class(case, k):
+    """the former class a divergence at op k of a sequential history falls into (None: none of them)"""
+    upto = case["ops"][:k + 1] if k >= 0 else case["ops"]
+    if case.get("check") and any(o["op"] == "peek" for o in upto):
+        return "unchecked-open"
+    if case.get("check") and any(erases_marker(o) for o in upto):
+        return "marker-erased"
+    if any(o["op"] in ("create", "peek") for o in upto):
+        return "pending-bool"      # CreateLocation / GetLocation used to leave their hold behind: loads / cached differ
+    return None
+
+
+def proto_class(case, k):
+    """overlapping holders of one name before step k => the former class pending-bool"""
+    held = {}
+    for st in case["steps"][:k + 1] if k >= 0 else case["steps"]:
+        if st["t"] == "open":
+            if any(n == st["loc"] for n in held.values()):
+                return "pending-bool"
+            held[st["h"]] = st["loc"]
+        elif st["t"] == "release":
+            held.pop(st.get("h"), None)
+        elif st["t"] == "req" and any(n == st["loc"] for n in held.values()):
+            return "pending-bool"
+    if case.get("check"):
+        return "unchecked-open"
+    return None
+
+
+def short_hist(ops, k):
+    """the history up to op k, compactly (for VIOLATION lines)"""
+    def one(o):
+        x = {a: b for a, b in o.items() if a not in ("now", "t0", "t1", "obs", "inherited")}
+        return canon(x)
+    hist = [one(o) for o in ops[:k + 1]]
+    if len(hist) > 12:
+        hist = hist[:4] + ["... %d more ..." % (len(hist) - 8)] + hist[-4:]
+    return "[" + ", ".join(hist) + "]"
 
 
 def norm_created(x):
@@ -131,13 +170,17 @@ def to_loc_case(case):
     return {"kind": "c17.loc", "state": case["state"], "locs": locs, "ops": copy.deepcopy(ops)}
 
 
-MAXV = 25          # replay files written per run; further violations are only counted
+MAXV = 40          # replay files written per run; further violations are only counted
+MAXTAG = 6         # ... and per kind of violation, so that every kind that occurs is shown
 RETRIES = [12]     # re-runs available for apparent (possibly timing-induced) failures
+TAGGED = collections.Counter()
 
 
 def report(ck, stats, what, obj, tag, no_input=False):
-    if ck.violations >= MAXV:
+    TAGGED[tag] += 1
+    if ck.violations >= MAXV or TAGGED[tag] > MAXTAG:
         stats["violations_not_written"] += 1
+        stats["violations_not_written_" + tag] += 1
         return
     ck.violation(what, obj, tag=tag, no_input=no_input)
 
@@ -145,9 +188,10 @@ def report(ck, stats, what, obj, tag, no_input=False):
 def main():
     ck = Check("C17")
     ck.cov["trusted_base"] = TRUSTED_BASE + [
-        "ReloadOK (reloading a location from storage is the identity on observations) is an explicit hypothesis of cache_transparent_seq; it is the statement of C06 and is exercised here by TTL never (reload before every request)",
+        "ReloadOK (reloading a location from storage is the identity on observations) is an explicit hypothesis of cache_transparent_seq / cache_transparent_under_overlap; it is the statement of C06 (discharged for the State model in Props/C17.lean) and is exercised here by TTL never (reload before every request)",
         "the Location model (RulioModel/Loc.lean) used to instantiate the cache model in the driver is validated by the `loc` correspondence",
-        "clock reconstruction in Driver/C17.lean (chooses model clock readings inside the recorded brackets)"]
+        "clock reconstruction in Driver/C17.lean (chooses model clock readings inside the recorded brackets)",
+        "Open (table section, load under the entry lock, second look at the marker) is one atomic step of the concurrent model: the entry is locked before the table is unlocked (forced schedule c17.window, and -race stress in C12)"]
     ck.cov["checker_cmd"] = "lake build Props.C17 && lake env lean .audit/Audit_C17.lean (#print axioms)"
     pr = prove("C17", leanchecker=ck.thorough)
     ck.add_proof(pr)
@@ -158,28 +202,43 @@ def main():
     if not mdl:
         ck.violation("model driver does not build: " + mtxt[-800:], {"build_log": mtxt[-3000:]}, tag="build", no_input=True); ck.finish()
     rng = ck.rng
-    kf = effective_findings("C17", PROPOSED)
-    listed = {f.get("class") for f in kf}
+    tolerated = tolerated_classes("C17")
+    listed_ids = {f.get("id") for f in known_findings("C17")} - fixed_finding_ids("C17")
     stats = collections.Counter()
+    known_hits = collections.Counter()
+
+    def fail(cls, what, obj, tag):
+        """a divergence: tolerated when it falls into the class of a finding that is still listed, else a violation"""
+        if cls is not None and cls in tolerated:
+            known_hits[cls] += 1
+            return
+        report(ck, stats, what, obj, tag)
 
     # ------------------------------------------------------------------ A. sequential histories, twin Systems
     nh = 240 if not ck.thorough else 1500
     hists = []
     for hnum in range(nh):
         stream = ["plain", "check", "cachettl", "sleep"][hnum % 4]
+        # existence checked: clears, removals of the marker, unchecked opens (GetLocation) and late creates are part of
+        # the ordinary stream (they used to be outside the fragment of the transparency theorem)
         ops = gen_c17.sys_history(rng, check_stream=(stream == "check"), cache_ttl=(stream == "cachettl"), sleeps=(stream == "sleep"),
-                                  clear_prob=0.0 if stream == "check" else 0.03)
+                                  clear_prob=0.04 if stream == "check" else 0.03, marker_ops=0.12 if stream == "check" else 0.0)
         hists.append((stream, ops))
-    # rare stream outside the fragment: checking on + clear / GetLocation (classes marker-erased, unchecked-open)
+    for _ in range(40 if not ck.thorough else 400):
+        hists.append(("marker", gen_c17.marker_history(rng)))
     for _ in range(10 if not ck.thorough else 150):
-        ops = gen_c17.sys_history(rng, nlocs=2, nops=10, check_stream=True, clear_prob=0.08)
+        ops = gen_c17.sys_history(rng, nlocs=2, nops=10, check_stream=True, clear_prob=0.08, marker_ops=0.1)
         for _ in range(2):
             ops.insert(rng.randint(0, len(ops) // 2), {"op": "peek", "loc": rng.choice(["a", "b"])})
-        hists.append(("outside", ops))
+        hists.append(("marker", ops))
+    # the witnesses of the former findings about the marker, as ordinary histories under every TTL
+    for f in FORMER:
+        if f["class"] == "marker-erased":
+            hists.append(("former", copy.deepcopy(f["witness"]["ops"]) + gen_c17.probes("x")))
     cases, meta = [], []
     for hi, (stream, ops) in enumerate(hists):
         for state in ("indexed", "linear"):
-            for check in ((True,) if stream in ("check", "outside") else (False, True) if hi % 3 == 0 else (False,)):
+            for check in ((True,) if stream in ("check", "marker", "former") else (False, True) if hi % 3 == 0 else (False,)):
                 for ttl in TTLS:
                     cases.append({"kind": "c17.sys", "ttl": ttl, "check": check, "state": state, "ops": copy.deepcopy(ops)})
                     meta.append((hi, stream, state, check, ttl))
@@ -192,12 +251,14 @@ def main():
                     cases.append(c); meta.append((-1, "corpus", c.get("state"), c.get("check"), c.get("ttl")))
     impl, model = run_sys(cases, drv, mdl)
     groups = collections.defaultdict(dict)
-    known_hits = collections.Counter()
     for idx, (c, i, m) in enumerate(zip(cases, impl, model)):
         hi, stream, state, check, ttl = meta[idx]
         ck.count(c)
         stats["sys_cases"] += 1; stats["sys_ops"] += len(c["ops"]); stats["ttl_" + str(ttl)] += 1; stats["check_on" if check else "check_off"] += 1
         stats["stream_" + stream] += 1
+        if check:
+            stats["check_on_peek"] += sum(1 for o in c["ops"] if o["op"] == "peek")
+            stats["check_on_erase_marker"] += sum(1 for o in c["ops"] if erases_marker(o))
         first, ci, cs = diff_sys(c, i, m)
         tries = 0
         while first is not None and tries < 3 and RETRIES[0] > 0:
@@ -212,30 +273,37 @@ def main():
         if first is not None:
             if first.get("at") == -1 and isinstance(i, dict) and i.get("err") in ("crash", "hang", "panic"):
                 report(ck, stats, "System %s on a sequential history (ttl=%s check=%s %s)" % (i.get("err"), ttl, check, state), {"case": c, "impl": i}, "crash")
+                continue
+            if first.get("at") == -1 or ci is None:
+                report(ck, stats, "sequential history could not be compared: impl=%s model=%s" % (canon(i)[:200], canon(m)[:200]), {"case": c, "impl": i, "model": m}, "corr")
+                continue
+            # what the System answered against operating the locations directly (the specification)
+            cs = spec_canon(c, m)
+            k = next((k for k in range(len(ci)) if ci[k] != cs[k]), None)
+            if k is not None:
+                fail(sys_class(c, k), "the cache is not transparent (ttl=%s CheckExistence=%s %s): request %d %s is answered %s through the System and %s when the location is operated directly; history: %s" % (
+                    ttl, check, state, k, canon({a: b for a, b in c["ops"][k].items() if a != "fact"})[:120], ci[k][1][:160], cs[k][1][:160], short_hist(c["ops"], k)),
+                    {"case": c, "op_index": k, "impl": i["outs"][k], "direct": (m["outs"][k] or {}).get("spec")}, "transparency")
             else:
-                report(ck, stats, "correspondence broken: sys.System and the cache model disagree (%s) at op %s: impl=%s model=%s" % (
-                    first.get("what"), first.get("at"), canon(first.get("impl"))[:260], canon({k: v for k, v in (first.get("model") or {}).items() if k != "spec"})[:260] if isinstance(first.get("model"), dict) else first.get("model")),
+                k = first.get("at")
+                fail(sys_class(c, k), "correspondence broken: sys.System and the cache model disagree (%s) at request %s (ttl=%s CheckExistence=%s %s): impl=%s model=%s; history: %s" % (
+                    first.get("what"), k, ttl, check, state, canon({a: b for a, b in (first.get("impl") or {}).items() if a in ("ok", "err", "loads", "cached")})[:200],
+                    canon({a: b for a, b in (first.get("model") or {}).items() if a in ("ok", "err", "loads", "cached")})[:200], short_hist(c["ops"], k)),
                     {"case": c, "first": first}, "corr")
             continue
         stats["ops_loaded"] += sum(1 for o in i["outs"] if o.get("loads"))
         stats["ops_notFound"] += sum(1 for o in i["outs"] if o.get("err") == "notFound")
-        # model vs direct operation (the specification)
+        # model vs direct operation (the specification): cache_transparent_seq has no side condition
         mc, sc = model_canon(c, m), spec_canon(c, m)
         if mc != sc:
-            if m.get("frag"):
-                ck.violation("INTERNAL: cache model and direct operation disagree inside the fragment of cache_transparent_seq",
-                             {"case": c, "model": m}, tag="internal")
-                continue
             k = next(k for k in range(len(mc)) if mc[k] != sc[k])
-            cls = "unchecked-open" if any(o["op"] == "peek" for o in c["ops"][:k + 1]) and not any(o["op"] == "clear" for o in c["ops"][:k + 1]) else "marker-erased"
-            known_hits[cls] += 1
-            stats["outside_fragment_diff"] += 1
-        else:
-            stats["equals_direct"] += 1
-        if m.get("frag"):
-            stats["in_fragment"] += 1
-            groups[(hi, state, check)][ttl] = (ci, c)
-    # results independent of the TTL (inside the fragment)
+            ck.violation("INTERNAL: the cache model and direct operation disagree at request %d although cache_transparent_seq covers every history: %s" % (k, short_hist(c["ops"], k)),
+                         {"case": c, "model": m, "theorem": "cache_transparent_seq"}, tag="internal")
+            continue
+        stats["equals_direct"] += 1
+        stats["in_fragment"] += 1
+        groups[(hi, state, check)][ttl] = (ci, c)
+    # results independent of the TTL
     for key, by_ttl in groups.items():
         if key[0] < 0 or len(by_ttl) < 2:
             continue
@@ -243,9 +311,9 @@ def main():
         for ttl, (ci, c) in by_ttl.items():
             if ci != by_ttl[ref_ttl][0]:
                 k = next(k for k in range(len(ci)) if ci[k] != by_ttl[ref_ttl][0][k])
-                ck.violation("results depend on the cache TTL: op %d %s gives %s under ttl=%s and %s under ttl=%s" % (
-                    k, canon(c["ops"][k])[:200], ci[k][1][:200], ttl, by_ttl[ref_ttl][0][k][1][:200], ref_ttl),
-                    {"case": c, "other_ttl": ref_ttl, "op_index": k}, tag="ttl")
+                fail(sys_class(c, k), "results depend on the cache TTL: op %d %s gives %s under ttl=%s and %s under ttl=%s; history: %s" % (
+                    k, canon(c["ops"][k])[:200], ci[k][1][:200], ttl, by_ttl[ref_ttl][0][k][1][:200], ref_ttl, short_hist(c["ops"], k)),
+                    {"case": c, "other_ttl": ref_ttl, "op_index": k}, "ttl")
                 break
         stats["ttl_groups"] += 1
     # identical to operating core.Location directly (existence checking off)
@@ -273,9 +341,19 @@ def main():
 
     # ------------------------------------------------------------------ B. the exported protocol, step by step
     pcases = []
-    for _ in range(300 if not ck.thorough else 2500):
+    for r in range(300 if not ck.thorough else 2500):
         for ttl in ("never", "forever", 40000000):
-            pcases.append(gen_c17.proto_case(rng, ttl, rng.choice(["indexed", "linear"])))
+            state = rng.choice(["indexed", "linear"])
+            kind = r % 3
+            if kind == 0:
+                pcases.append(gen_c17.proto_case(rng, ttl, state))
+            elif kind == 1:
+                pcases.append(gen_c17.overlap_case(rng, ttl, state))        # holders overlap, one releases after the TTL
+            else:
+                pcases.append(gen_c17.proto_case(rng, ttl, state, check=True))
+    for f in FORMER:
+        if f["class"] == "pending-bool":
+            pcases.append(copy.deepcopy(f["witness"]))
     pimpl = run_cases(drv, pcases)
 
     def proto_model(cs, impls):
@@ -290,53 +368,81 @@ def main():
         return run_cases(mdl, mcs)
 
     def proto_diff(c, i, m):
+        """first step at which impl and model differ; first step at which impl and direct operation differ; model = direct?"""
         iouts, mouts = (i or {}).get("outs"), (m or {}).get("outs")
         if iouts is None or mouts is None or len(iouts) != len(c["steps"]) or len(mouts) != len(c["steps"]):
-            return {"at": -1, "impl": i, "model": m}, False
+            return {"at": -1, "impl": i, "model": m}, None, False
         ti, tm, ts = {}, {}, {}
         pi, pm = {}, {}   # instance numbering by first appearance among the opens (requests load instances nobody sees)
-        specdiff = False
+        first, firstspec, specdiff = None, None, False
         for k, st in enumerate(c["steps"]):
             op = dict(st.get("op") or {"op": st["t"]}, loc=st.get("loc", ""))
+            sp = None
             if st["t"] == "open":
                 a = ("err", iouts[k]["err"]) if iouts[k].get("err") else ("ok", pi.setdefault(iouts[k].get("ok"), len(pi)))
                 b = ("err", mouts[k]["err"]) if mouts[k].get("err") else ("ok", pm.setdefault(mouts[k].get("ok"), len(pm)))
+                if "spec" in mouts[k]:
+                    # directly: a checked open fails exactly when the location does not carry the marker
+                    sa = ("err", iouts[k]["err"]) if iouts[k].get("err") else ("ok", True)
+                    sb = ("err", mouts[k]["err"]) if mouts[k].get("err") else ("ok", True)
+                    sp = ("err", mouts[k]["spec"]["err"]) if mouts[k]["spec"].get("err") else ("ok", True)
+                    if sb != sp:
+                        specdiff = True
+                    if sa != sp and firstspec is None:
+                        firstspec = {"at": k, "step": st, "impl": sa, "direct": sp}
             elif st["t"] in ("release", "sleep"):
                 a = ("err", iouts[k]["err"]) if iouts[k].get("err") else ("ok", canon(iouts[k].get("ok")))
                 b = ("err", mouts[k]["err"]) if mouts[k].get("err") else ("ok", canon(mouts[k].get("ok")))
             else:
                 a, b = canon17(op, iouts[k], ti), canon17(op, mouts[k], tm)
-                if "spec" in mouts[k] and canon17(op, mouts[k]["spec"], ts) != b:
-                    specdiff = True
-            if a != b or iouts[k].get("loads") != mouts[k].get("loads") or iouts[k].get("cached") != mouts[k].get("cached"):
-                return {"at": k, "step": st, "impl": iouts[k], "model": mouts[k]}, specdiff
-        return None, specdiff
+                if "spec" in mouts[k]:
+                    sp = canon17(op, mouts[k]["spec"], ts)
+                    if sp != b:
+                        specdiff = True
+                    if sp != a and firstspec is None:
+                        firstspec = {"at": k, "step": st, "impl": a, "direct": sp}
+            if first is None and (a != b or iouts[k].get("loads") != mouts[k].get("loads") or iouts[k].get("cached") != mouts[k].get("cached")):
+                first = {"at": k, "step": st, "impl": iouts[k], "model": mouts[k]}
+        return first, firstspec, specdiff
+
+    def short_steps(steps, k):
+        return "[" + ", ".join(canon({a: b for a, b in st.items() if a not in ("now", "t0", "t1")}) for st in steps[:k + 1]) + "]"
 
     pmodel = proto_model(pcases, pimpl)
     for c, i, m in zip(pcases, pimpl, pmodel):
         ck.count(c)
         stats["proto_cases"] += 1; stats["proto_steps"] += len(c["steps"])
-        first, specdiff = proto_diff(c, i, m)
+        if proto_class(c, -1) == "pending-bool":
+            stats["proto_overlapping_holders"] += 1
+        if c.get("check"):
+            stats["proto_check_on"] += 1
+        first, firstspec, specdiff = proto_diff(c, i, m)
         tries = 0
         while first is not None and tries < 3 and RETRIES[0] > 0:
             RETRIES[0] -= 1
             tries += 1
             i2 = run_cases(drv, [c]); m2 = proto_model([c], i2)
-            f2, sd2 = proto_diff(c, i2[0], m2[0])
+            f2, fs2, sd2 = proto_diff(c, i2[0], m2[0])
             if f2 is None:
-                first, specdiff, m = None, sd2, m2[0]
+                first, firstspec, specdiff, i, m = None, fs2, sd2, i2[0], m2[0]
         if first is not None:
-            report(ck, stats, "correspondence broken: CachedLocations.Open/Release and the protocol model disagree at step %s: impl=%s model=%s" % (
-                first.get("at"), canon(first.get("impl"))[:260], canon({k: v for k, v in (first.get("model") or {}).items() if k != "spec"})[:260] if isinstance(first.get("model"), dict) else first.get("model")),
-                {"case": c, "first": first}, "proto")
-            continue
-        if m.get("multiLive"):
-            stats["proto_multiLive"] += 1
-        if specdiff:
-            if m.get("multiLive"):
-                known_hits["pending-bool"] += 1
+            k = first.get("at")
+            if firstspec is not None and firstspec["at"] <= (k if k >= 0 else 10**9):
+                kk = firstspec["at"]
+                fail(proto_class(c, kk), "the cache serves state that differs from the location operated directly (ttl=%s %s): step %d %s is answered %s, directly %s; steps: %s" % (
+                    c["ttl"], c["state"], kk, canon(firstspec["step"])[:160], str(firstspec["impl"][1])[:160], str(firstspec["direct"][1])[:160], short_steps(c["steps"], kk)),
+                    {"case": c, "first": firstspec, "impl": i}, "proto-transparency")
             else:
-                ck.violation("protocol model differs from direct operation although only one instance was ever live", {"case": c, "model": m}, tag="internal")
+                fail(proto_class(c, k), "correspondence broken: CachedLocations.Open/Release and the protocol model disagree at step %s (ttl=%s %s): impl=%s model=%s; steps: %s" % (
+                    k, c["ttl"], c["state"], canon({a: b for a, b in (first.get("impl") or {}).items() if a in ("ok", "err", "loads", "cached")})[:200] if isinstance(first.get("impl"), dict) else first.get("impl"),
+                    canon({a: b for a, b in (first.get("model") or {}).items() if a in ("ok", "err", "loads", "cached")})[:200] if isinstance(first.get("model"), dict) else first.get("model"),
+                    short_steps(c["steps"], k if k >= 0 else len(c["steps"]))),
+                    {"case": c, "first": first}, "proto")
+            continue
+        if m.get("multiLive") or specdiff:
+            ck.violation("INTERNAL: the protocol model %s although cache_transparent_under_overlap / single_instance_under_overlap exclude it" % (
+                "loaded a second instance while one was held" if m.get("multiLive") else "differs from direct operation"),
+                {"case": c, "model": m, "theorem": "cache_transparent_under_overlap"}, tag="internal")
 
     # ------------------------------------------------------------------ C. concurrent first requests: single load
     ccases = []
@@ -352,80 +458,88 @@ def main():
         if not isinstance(o, dict) or "loads" not in o:
             ck.violation("concurrent first requests: %s" % canon(o)[:300], {"case": c, "impl": o}, tag="conc-crash"); continue
         if o["acked"] != o["n"] or o["stored"] != o["n"]:
-            ck.violation("concurrent first requests: %d of %d acknowledged, %d stored" % (o["acked"], o["n"], o["stored"]), {"case": c, "impl": o}, tag="conc")
+            ck.violation("%d concurrent first requests (ttl=%s): %d acknowledged, %d stored" % (o["n"], c["ttl"], o["acked"], o["stored"]), {"case": c, "impl": o}, tag="conc")
+            continue
+        if o["visible"] != o["n"]:
+            # a request issued after all N were acknowledged misses some of their writes: two instances were live (an
+            # entry was dropped under a holder: the former class pending-bool)
+            fail("pending-bool", "%d concurrent first requests (ttl=%s), all acknowledged and stored; the next request sees only %d of their facts (%d loads)" % (
+                o["n"], c["ttl"], o["visible"], o["loads"]), {"case": c, "impl": o}, "conc-visible")
             continue
         if c["mode"] == "gate" and c["ttl"] == "forever":
-            # the loader holds the entry lock while everybody else arrives: window-free, single_load_partial applies
+            # the loader is held inside Storage.Load (it holds the entry lock) while everybody else arrives (single_load).
+            # Under a TTL that runs out, goroutines still queued on the table mutex when the holders have all released
+            # have not opened yet: they do not overlap with them and may load again; the overlap itself is driven
+            # deterministically by the protocol-level cases (section B)
             stats["conc_gate_forever"] += 1
-            if o["loads"] != 1 or o["visible"] != o["n"]:
-                ck.violation("%d concurrent first requests (loader held inside Storage.Load): %d loads, %d of %d acknowledged facts visible" % (
-                    o["n"], o["loads"], o["visible"], o["n"]), {"case": c, "impl": o}, tag="single-load")
-        elif c["ttl"] == "forever" and (o["loads"] != 1 or o["visible"] != o["n"]):
-            if "open-window" in listed:
-                known_hits["open-window"] += 1
-            else:
-                ck.violation("%d concurrent first requests: %d loads, %d of %d acknowledged facts visible" % (o["n"], o["loads"], o["visible"], o["n"]),
-                             {"case": c, "impl": o}, tag="single-load")
+            if o.get("overlapLoads") != 1:
+                fail("open-window", "%d concurrent first requests (loader held inside Storage.Load, ttl=forever): %s loads" % (o["n"], o.get("overlapLoads")), {"case": c, "impl": o}, "single-load")
+        elif c["ttl"] == "forever" and o["loads"] != 1:
+            fail("open-window", "%d concurrent first requests (ttl=forever): %d loads, %d of %d acknowledged facts visible" % (o["n"], o["loads"], o["visible"], o["n"]),
+                 {"case": c, "impl": o}, "single-load")
         if o["loads"] == 1:
             stats["conc_single_load"] += 1
 
-    # ------------------------------------------------------------------ D. known findings: replay the witnesses
-    for f in kf:
-        w, cls = f["witness"], f.get("class")
+    # ------------------------------------------------------------------ D. the witnesses of the former findings
+    def replay_former(f):
+        """(behaves, description of what the witness did)"""
+        w, cls = f["witness"], f["class"]
         if cls == "open-window":
             o = run_cases(drv, [w])[0]
-            if isinstance(o, dict) and o.get("loads", 0) >= 2 and len(o.get("visible") or []) < 2:
-                ck.known_finding("%s: %s (witness: 2 acknowledged first requests, %d loads, visible afterwards: %s)" % (f["id"], f["what"], o["loads"], o["visible"]))
-            elif isinstance(o, dict) and o.get("err"):
-                ck.violation("forced schedule for %s could not be replayed: %s" % (f["id"], o.get("err")), {"case": w, "impl": o}, tag="witness", no_input=True)
-            else:
-                ck.note("known finding %s did not reproduce: %s" % (f["id"], canon(o)[:200]))
-                ck.violation("the witness of %s no longer fails but the model still predicts it (model out of date)" % f["id"], {"case": w, "impl": o, "theorem": "single_load_open_window"}, tag="stale-finding", no_input=True)
-        elif cls == "pending-bool":
+            if isinstance(o, dict) and o.get("err"):
+                return None, "forced schedule could not be replayed: %s" % o.get("err")
+            ok = isinstance(o, dict) and o.get("loads", 0) == 1 and len(o.get("visible") or []) == 2
+            return ok, "two first requests for one location, the second arriving while the first is inside CachedLocation.get: %s" % canon(o)[:260]
+        if cls == "pending-bool":
             o = run_cases(drv, [w])[0]
-            m = proto_model([w], [o])[0]
-            last = ((o or {}).get("outs") or [{}])[-1]
-            first, specdiff = proto_diff(w, o, m)
-            if first is None and last.get("ok") == []:
-                ck.known_finding("%s: %s (witness: the last request, issued after B's write was acknowledged, finds no fact)" % (f["id"], f["what"]))
-            else:
-                ck.violation("the witness of %s no longer behaves as the model predicts" % f["id"], {"case": w, "impl": o, "model": m, "theorem": "pending_bool_stale"}, tag="stale-finding", no_input=True)
-        elif cls == "marker-erased":
+            outs = (o or {}).get("outs") or [{}]
+            last = outs[-1]
+            seen = [x.get("id") for x in (last.get("ok") or [])] if isinstance(last.get("ok"), list) else None
+            loads = [x.get("loads") for x in outs]
+            # one load while A or B hold y (the request in between is served their instance); the last request may load again
+            ok = seen == ["w"] and sum(l or 0 for l in loads[:-1]) == 1
+            return ok, "A and B hold y, A releases after the TTL, somebody asks for y, B adds w and releases: the last search finds %s; loads per step %s; steps: %s" % (seen, loads, short_steps(w["steps"], len(w["steps"])))
+        if cls == "marker-erased":
             res = {}
             for ttl in ("forever", "never"):
-                c = dict(w, ttl=ttl)
-                o = run_cases(drv, [c])[0]
+                o = run_cases(drv, [dict(w, ttl=ttl)])[0]
                 res[ttl] = [("err:" + x["err"]) if x.get("err") else "ok" for x in (o.get("outs") or [])]
-            if res["forever"] != res["never"]:
-                ck.known_finding("%s: %s (witness create;clear;addFact: forever=%s never=%s)" % (f["id"], f["what"], res["forever"], res["never"]))
-            else:
-                ck.violation("the witness of %s no longer fails but the model still predicts it" % f["id"], {"case": w, "impl": res, "theorem": "clear_breaks_transparency"}, tag="stale-finding", no_input=True)
-        elif cls == "unchecked-open":
+            ok = res["forever"] == res["never"] == ["ok", "ok", "ok"]
+            return ok, "create x; clear x; addFact x: forever=%s never=%s" % (res["forever"], res["never"])
+        if cls == "unchecked-open":
             res = {}
             for ttl in ("forever", "never"):
-                c = dict(w, ttl=ttl)
-                o = run_cases(drv, [c])[0]
+                o = run_cases(drv, [dict(w, ttl=ttl)])[0]
                 outs = o.get("outs") or []
                 res[ttl] = [("err:" + x["err"]) if x.get("err") else "ok" for x in outs[:-1]] + [sorted((outs[-1].get("ok") or {}).keys())] if outs else []
-            bypass = len(res["forever"]) >= 5 and res["forever"][2] == "err:notFound" and res["forever"][4] == "ok"
-            if bypass:
-                ck.known_finding("%s: %s (witness through a child's inherited search: forever=%s never=%s)" % (f["id"], f["what"], res["forever"], res["never"]))
-            else:
-                ck.violation("the witness of %s no longer fails but the model still predicts it" % f["id"], {"case": w, "impl": res, "theorem": "unchecked_open_bypasses_check"}, tag="stale-finding", no_input=True)
-    if "open-window" not in listed:
-        # the finding is not (or no longer) listed: the forced schedule must find the window closed
-        w = {"kind": "c17.window", "ttl": "forever", "state": "indexed", "check": False}
-        o = run_cases(drv, [w])[0]
-        if not isinstance(o, dict) or o.get("loads", 0) != 1 or len(o.get("visible") or []) != 2:
-            ck.violation("two first requests for one location, the second arriving between Open's table section and Get: %s" % canon(o)[:300], {"case": w, "impl": o}, tag="single-load")
-    for cls, n in known_hits.items():
-        ck.note("generated cases in known class %s: %d (impl = model there)" % (cls, n))
+            want = ["ok", "ok", "err:notFound", "ok", "err:notFound", "err:notFound", []]
+            ok = res["forever"] == want and res["never"] == want
+            return ok, "create c; setParents c [p]; addFact p; search c (inherited: opens p unchecked); addFact p; addFact p; store p: forever=%s never=%s" % (res["forever"], res["never"])
+        return None, "unknown class"
 
-    ck.cov["rule"] = ("request histories over 2-3 locations (facts, rules, events, searches, removals, clears, CreateLocation, `!cacheTTL` facts, pauses) run through twin "
-                      "Systems under TTL never/1ms/forever x CheckExistence x indexed/linear; interleavings of Open/call/Release over the exported cache protocol; "
+    for f in FORMER:
+        ok, desc = replay_former(f)
+        stats["former_witnesses"] += 1
+        if f["id"] in listed_ids:
+            # still listed as a finding of the tree: it is expected to fail
+            if ok is False:
+                ck.known_finding("%s: %s (%s)" % (f["id"], f["what"], desc))
+            elif ok:
+                ck.violation("%s is listed as a finding but its witness behaves (move it to `fixed`): %s" % (f["id"], desc), {"case": f["witness"]}, tag="stale-finding", no_input=True)
+            else:
+                ck.violation("the witness of %s could not be replayed: %s" % (f["id"], desc), {"case": f["witness"]}, tag="witness", no_input=True)
+        elif not ok:
+            ck.violation("the repaired defect %s is back: %s -- %s" % (f["id"], f["what"], desc), {"case": f["witness"], "finding": f["id"]}, tag="former-" + f["class"])
+    for cls, n in known_hits.items():
+        ck.note("generated cases in the class of a finding that is still listed (%s): %d" % (cls, n))
+
+    ck.cov["rule"] = ("request histories over 2-3 locations (facts, rules, events, searches, removals, clears, CreateLocation, GetLocation, removal of the createdAt marker, `!cacheTTL` facts, pauses) run through twin "
+                      "Systems under TTL never/1ms/forever x CheckExistence x indexed/linear; interleavings of Open/call/Release over the exported cache protocol with overlapping holders and expiring TTLs, checked and unchecked opens; "
                       "N=2..16 concurrent first requests; non-trivial = distinct by canonical JSON")
     ck.cov["distribution"] = dict(stats, known_class_hits=dict(known_hits))
     ck.cov["traces_validated_against_impl"] = stats["sys_cases"] + stats["proto_cases"] + stats["direct_location_runs"]
+    if stats["violations_not_written"]:
+        ck.note("%d further violations were found and not written out (per kind: %s)" % (stats["violations_not_written"], dict(TAGGED)))
     if pr["failed"] and ck.violations == 0:
         ck.violation("proof obligations of C17 no longer check: %s" % pr["failed"], {"theorems": pr.get("failed_theorems") or pr["failed"], "log": pr["log"][-3000:]}, tag="proof", no_input=True)
     ck.finish()
